@@ -16,12 +16,15 @@ D(str) == str
 Ints == { <<0>>, <<1>>, <<4,2>>, <<9,0,0,7,1,9,9,2,5,4,7,4,0,9,9,1>>, <<9,0,0,7,1,9,9,2,5,4,7,4,0,9,9,2>>, <<9,0,0,7,1,9,9,2,5,4,7,4,0,9,9,3>>,
           I64MAX, I64MINM, <<9,2,2,3,3,7,2,0,3,6,8,5,4,7,7,5,8,0,9>>, U64MAX, <<1,8,4,4,6,7,4,4,0,7,3,7,0,9,5,5,1,6,1,6>>,
           <<1,2,3,4,5,6,7,8,9,0,1,2,3,4,5,6,7,8,9,0,1,2,3,4,5,6,7,8,9,0>>, <<1,0,0,0,0,0,0,0,0,0,0,0,0,0,0,0,0,0,0,0,0,0,0>>,
-          <<1,2,3,4,5,6,7,8,9,0,1,2,3,4,5>>, <<1,2,3,4,5,6,7,8,9,0,1,2,3,4,5,6>>, <<4,2,9,4,9,6,7,2,9,6>>, <<2,1,4,7,4,8,3,6,4,8>> }
+          <<1,2,3,4,5,6,7,8,9,0,1,2,3,4,5>>, <<1,2,3,4,5,6,7,8,9,0,1,2,3,4,5,6>>, <<4,2,9,4,9,6,7,2,9,6>>, <<2,1,4,7,4,8,3,6,4,8>>,
+          \* between 2^63 and 2^64 (and their negatives: outside every 64-bit integer type, whole doubles), 2^53 .. 2^63
+          <<1,0,0,0,0,0,0,0,0,0,0,0,0,0,0,0,0,0,0,0>>, <<1,2,3,4,5,6,7,8,9,0,1,2,3,4,5,6,7,8,9,0>>, <<9,2,2,3,3,7,2,0,3,6,8,5,4,7,7,7,8,5,6>>, <<1,5,0,0,0,0,0,0,0,0,0,0,0,0,0,0,0,0,0,0>>,
+          <<1,0,0,0,0,0,0,0,0,0,0,0,0,0,0,0,0,0,0>>, <<1,8,4,4,6,7,4,4,0,7,3,7,0,9,5,5,0,0,0,0>> }
 Fracs == { <<>>, <<0>>, <<5>>, <<1>>, <<2,5>>, <<0,0,0,0,0,1>>, <<1,2,3,4,5,6,7,8,9,0,1,2,3,4>>, <<1,2,3,4,5,6,7,8,9,0,1,2,3,4,5,6>>,
            <<3>>, <<9,9,9,9,9,9,9,9,9,9,9,9,9,9,9,9,9>> }
 E1(neg, d) == [has |-> TRUE, neg |-> neg, d |-> d]
 Exps == { NoExp, E1(FALSE, <<0>>), E1(FALSE, <<1>>), E1(FALSE, <<2,2>>), E1(FALSE, <<2,3>>), E1(TRUE, <<2,2>>), E1(TRUE, <<2,3>>),
-          E1(FALSE, <<3,0,0>>), E1(TRUE, <<3,0,0>>), E1(TRUE, <<3,1,0>>), E1(FALSE, <<1,5>>), E1(TRUE, <<7>>) }
+          E1(FALSE, <<3,0,0>>), E1(TRUE, <<3,0,0>>), E1(TRUE, <<3,1,0>>), E1(FALSE, <<1,5>>), E1(TRUE, <<7>>), E1(FALSE, <<1,9>>), E1(FALSE, <<1,8>>) }
 SmallIp == { <<0>>, <<1>>, <<4,2>>, <<1,2,3,4,5,6,7,8,9,0,1,2,3,4,5>>, <<1,7,9,7,6,9,3,1,3,4,8,6,2,3,1,5,7>> }
 
 Numerals ==
